@@ -36,7 +36,10 @@ PROP = {
             "dropped, or committed while another open session reads the table; ADD / DROP COLUMN on tables that never held a row; "
             "SET / DROP NOT NULL in autocommit or a committed session followed by a NULL insert; CREATE UNIQUE INDEX / ADD CONSTRAINT "
             "followed by a duplicate; statements on missing names and DDL that must be refused; a reader that began before a CREATE "
-            "committed; reopen, also with an open session holding DML and DDL. At most one finding feature per case (tags `kf:…`). "
+            "committed; reopen, also with an open session holding DML and DDL. A further family (60 / 600 cases): DROP TABLE in a session that rolls back or is dropped, then — after reads, an insert or a "
+            "reopen — a DROP TABLE that commits, the name probed, created again with another shape and read, also across reopen. "
+            "And (40 / 400 cases) CREATE UNIQUE INDEX / ADD CONSTRAINT over colliding rows: refused, the table stays usable, the DDL "
+            "succeeds once the duplicates are deleted. At most one finding feature per case (tags `kf:…`). "
             "Non-trivial (`nt`) = a DDL statement inside a transaction that rolls back, or DML on a table altered earlier in the case.",
     "assumptions": [
         "in the model ADD / DROP COLUMN re-write the rows the altering transaction sees; rows inserted by a transaction that is "
@@ -68,12 +71,14 @@ TEXT = {
             "histories with reopen through the public API.",
     "design_ref": "DESIGN.md §5 C15",
     "note": "Holds for the specification model. Repaired by fix: commits: ADD COLUMN always failed; two open transactions creating the "
-            "same name both committed (the second committer is now refused); DROP TABLE freed the pages at once (rollback could not "
-            "bring the table back, concurrent readers failed); the catalog's own B+tree page broke after about six entries. Listed "
+            "same name both committed (the second creator is now refused, and the first one's entry in the name index is no longer replaced); DROP TABLE freed the pages at once (rollback could not "
+            "bring the table back, concurrent readers failed); the catalog's own B+tree page broke after about six entries; a CREATE UNIQUE INDEX / ADD CONSTRAINT failing on colliding "
+            "rows left the table pointing to a missing index. Listed "
             "findings: ALTER inside a rolled-back transaction stays (exact, flag updateKeepsInserterXmin, pinned); the check at commit "
             "compares created names instead of re-checking the catalog (exact, flag commitChecksInsertedKeysOnly: create + drop in one "
-            "transaction still blocks the name); regions: after two open transactions created the same name the refused one's entry has "
-            "replaced the committed one's in the name index (the committed table no longer resolves), ADD / DROP COLUMN on a table that "
+            "transaction still blocks the name); first creator wins on relation names (exact, flag createRefusedWhileNameHeld: CREATE TABLE "
+            "is refused with a conflict while an unseen, not rolled-back transaction holds the name — the specification refuses the "
+            "second COMMIT instead); regions: ADD / DROP COLUMN on a table that "
             "physically holds rows (rows are decoded with the new schema: errors or shifted values), CREATE UNIQUE INDEX / ADD "
             "CONSTRAINT in a rolled-back transaction leaves the table pointing to an index that does not exist.",
     "technique": "Lean 4 refinement proof (catalog as versioned data, reuse of the C04 simulation) + invariant + differential correspondence",
